@@ -56,6 +56,7 @@ def c02(tier):
         sc = {"prop": "C02", "cfgs": chains2(cfgs(kinds, [n]), sma(2)), "alphabet": [-2, 0, 3], "unit": 1, "maxlen": L, "extras": True}
         run.submit(p1_job, "w-chain-n%d" % n, "MC_Def", sc)
     f32_job(run, "C02", cfgs(kinds, [2, 3]), [-2, 0, 1, 3], 6)
+    release_job(run, "C02", cfgs(kinds, [1, 3]), [-2, 0, 1, 3], 6, extras=True)
     for m in ("Ind_Sma", "Ind_Ext", "Ind_HL", "Ind_Count"):
         run.submit(apalache_job, m)
     norm = ["HLNormalizer", "Roc", "BinaryEntropy", "Vsct", "Vst"]
@@ -93,6 +94,11 @@ def window_sweep(rnd, kinds, lo=-40, hi=40, ns=SWEEP_NS):
     return [{"cfg": {"k": k, "n": n}, "unit": 1, "mode": "window", "eps": [1, 1000000000], "float": "f64",
              "xs": shapes(rnd, n, lo, hi, 2 * n + 24), "k": max(1, n // 16), "dense": [[n - 1, n + 3]]} for k in kinds for n in ns]
 
+def release_job(run, prop, cf, alphabet, L, name="release", **extra):
+    """the same definitions on the optimised build (no debug assertions, no overflow checks): a fast path compiled only there,
+    or an integer that wraps instead of panicking, changes values, not just panics"""
+    run.submit(p1_job, name, "MC_Def", dict({"prop": prop, "cfgs": cf, "alphabet": alphabet, "unit": 1, "maxlen": L}, **extra), profile="release")
+
 def f32_job(run, prop, cf, alphabet, L, name="f32"):
     """the same definitions on the f32 instantiation of the views (T: Float is generic): 1e-4 relative"""
     run.submit(p1_job, name, "MC_Def", {"prop": prop, "cfgs": cf, "alphabet": alphabet, "unit": 1, "maxlen": L, "float": "f32", "eps": [1, 10000]})
@@ -113,6 +119,7 @@ def c05(tier):
             with_model(run, "rsi-n%d-a%d" % (n, alpha[0]), sc)
     run.submit(apalache_job, "Ind_MyRsi")
     f32_job(run, "C05", cfgs(kinds, [1, 2, 3]), [-2, 0, 2], 6)
+    release_job(run, "C05", cfgs(kinds, [1, 2, 3]), [-2, 0, 1, 3], 6)
     for n, L in ((2, 5), (3, 6)):
         run.submit(p1_job, "rsi-tiny-n%d" % n, "MC_Def", {"prop": "C05", "cfgs": cfgs(kinds, [n]), "alphabet": [0, 1, 2, 3], "unit": 1000000000, "maxlen": L})
         run.submit(p1_job, "rsi-huge-n%d" % n, "MC_Def", {"prop": "C05", "cfgs": cfgs(kinds, [n]), "alphabet": [-2000000, 0, 1000000, 3000000], "unit": 1, "maxlen": L})
@@ -165,6 +172,7 @@ def c06(tier):
     run.submit(p3_stream_job, "trend-big", "C06", big)
     run.submit(p3_stream_job, "trend-sweep", "C06", window_sweep(rnd, kinds, lo=-30, hi=30, ns=[n for n in SWEEP_NS if n <= 66]))
     f32_job(run, "C06", cfgs(kinds, [3, 4]), [-2, 0, 1, 3], 6)
+    release_job(run, "C06", cfgs(kinds, [3, 4]), [-2, 0, 1, 3], 6)
     return run.finish(RULE_DEF + "; plus recorded streams at larger N validated on the ghost window (P3)")
 
 @check("C13")
@@ -182,6 +190,7 @@ def c13(tier):
     inn = [{"k": "Sma", "n": 2}, {"k": "Add", "c": [E_, {"k": "Constant", "v": [3, 2]}]}, {"k": "Max", "n": 2}]
     ch = [dict(c, c=[i]) for c in cf for i in inn]
     f32_job(run, "C13", cf, [1, 2, 4, 7], 6)
+    release_job(run, "C13", cf, [1, 2, 4, 7], 6, extras=True)
     run.submit(p1_job, "roll-chain", "MC_Def", {"prop": "C13", "cfgs": ch, "alphabet": [1, 2, 4, 7], "unit": 1, "maxlen": L - 1, "extras": True})
     # long positive streams (new peaks after deeper troughs, repeated peaks, monotone runs): exact running sums in the ghost state
     rnd = random.Random(77 + run.seed)
@@ -258,6 +267,7 @@ def c11(tier):
             run.submit(p1_job, "units-inv-n%d-p%d" % (n, k), "MC_Def", {"prop": "C11", "cfgs": inv, "alphabet": [0, 1, 3], "unit": 1, "maxlen": L, "pow2": k})
             run.submit(p1_job, "units-lin-n%d-p%d" % (n, k), "MC_Def", {"prop": "C11", "cfgs": lin, "alphabet": [0, 1, 3], "unit": 1, "maxlen": L, "pow2": k, "outpow2": -k})
     f32_job(run, "C11", [v for n_ in (2, 3) for v in views(n_) if v["k"] in ("SuperSmoother", "RoofingFilter", "CyberCycle")] + lag[:3], [0, 1, 3], 7)
+    release_job(run, "C11", views(3) + lag[:2], [0, 1, 3], 7)
     run.submit(p1_job, "laguerre", "MC_Def", {"prop": "C11", "cfgs": lag, "alphabet": [-2, 0, 1, 3], "unit": 1, "maxlen": 6 if tier == "quick" else 8})
     return run.finish(RULE_DEF)
 
@@ -347,6 +357,7 @@ def c04(tier):
             st.append({"cfg": cfg, "unit": 10, "mode": "window", "eps": [1, 100000000], "float": "f64", "xs": shapes(rnd, n, -500, 500, 150), "k": 1})
     run.submit(p3_stream_job, "avg-big", "C04", st)
     f32_job(run, "C04", c04_cfgs(2) + c04_cfgs(3), [-2, 0, 1, 3], 6)
+    release_job(run, "C04", c04_cfgs(2) + c04_cfgs(3), [-2, 0, 1, 3], 6)
     # interval clause on streams of wide dynamic range (large values, then more than a window nine decades smaller)
     iv = []
     for n in ((1, 2, 3, 5, 21) if tier == "quick" else (1, 2, 3, 4, 5, 8, 13, 21, 50)):
